@@ -144,6 +144,7 @@ func cmdCheck(args []string) int {
 }
 
 func (c *checkCtx) runFuncs(u Unit) {
+	setTransparent(c.prog, u.Pkg)
 	var wg sync.WaitGroup
 	sem := make(chan bool, 4)
 	res := make([]*funcResult, len(u.Funcs))
